@@ -35,15 +35,15 @@ BOUNDS = (f"resource bound of G (measured by harness-side counters, inputs above
           f"shift counts <= {c08run.MAX_SHIFT} bits, integers <= 2^{c08run.MAX_BITS.bit_length() - 1} bits, include depth <= {c08run.MAX_INCLUDE} "
           f"(no self-inclusion), <= {c08run.MAX_OPERATORS} operators per expression, .align <= {c08run.MAX_ALIGN}")
 RULE = ("(proof part) wait-model cases: seeded random graphs of 1-12 deferred objects (settled to an int / settled to another object / "
-        "fn over 0-3 dependencies returning c+sum or another object / unsettled Promise), cyclic with probability ~1/2, plus fixed shapes "
-        "(a=a, mutual, forwarding rings, forwarding chains of N-2..N+1 objects against the `len(seen) >= N` bound of wait(), N read from the source), 1-4 wait() calls each, speculative or not; "
+        "fn over 0-3 dependencies returning c+sum or another object, as a Deferred or as a LinearPolynomial subclass / unsettled Promise), cyclic with probability ~1/2, plus fixed shapes "
+        "(a=a, mutual, forwarding rings, forwarding chains of N1-2..N1+1 plain objects against the `len(seen) >= N1` bound and of N2-1..N2+2 polynomial objects against the `polynomial_steps >= N2` bound of wait(), both literals read from the source), 1-4 wait() calls each, speculative or not; "
         "the real Deferred/Promise objects are driven through the internal API and value / exception class / is_awaiting flags / settled flags are "
         "compared with Model.WaitModel in coqc; non-trivial = distinct graph with >= 1 fn node. "
         "(exploration part) texts from six streams of tools/c08gen.py, all seeded: valid (proggen grammar-G programs, 1-3 files), wide (every mnemonic of "
         "the instruction table with every operand form its stubs admit, every directive of metacommands.py incl. aliases, all bracket styles, all literal "
         "spellings, strings with escapes, nested .repeat <= 8, 1-60 statements, 1-3 files, include depth <= 3, 9 charsets), fault (1-3 planted faults from a "
         "catalogue of 66 kinds), mut (<= 3 token/character delete/duplicate/swap/replace/insert from a fixed alphabet incl. \"'/<>()^,;:.\\t and non-ASCII "
-        "letters and digits), cyclic (84 self-referential or size-depends-on-later-address shapes in random context, 1 in 5 mutated), deep (chains of 300 additive / 30 non-linear definitions in all orders, "
+        "letters and digits), cyclic (84 self-referential or size-depends-on-later-address shapes in random context, 1 in 5 mutated), deep (chains of 300 additive / 30 non-linear definitions in all orders, plain alias chains of 10-999 links in all orders (must assemble), non-additive rings of 2-10 definitions (must fail with recursive-definition), "
         "30 address-dependent sizes, 8-deep brackets and .repeat). Each text: impl.assemble, then the real main_cli() in process under bare and graphical "
         "report formats with --lst/-o/--implicit-bin/-Wall variants (in-memory files), and for a sample the real CLI in a subprocess. "
         "non-trivial = distinct text (hash of files+charset) that produced >= 1 diagnostic or has >= 3 lines. " + BOUNDS)
@@ -52,7 +52,7 @@ ASSUME = ["CPython 3.12 semantics of int, str, struct, chr, open as read by the 
           BOUNDS]
 LEVEL_TEXT = ("PARTIAL by nature. Proved in Coq (all closed under the global context): the lazy-evaluation core of deferred.py as a fuelled model "
               "terminates for every finite graph with an explicit fuel bound, restores every is_awaiting flag on every exit path, reports DeferredCycle only when "
-              "a cycle (or a forwarding chain as long as the `seen` bound) is reachable, returns the unique solution of the dependency equations, and gives every closed acyclic "
+              "a cycle is reachable (or a forwarding chain reaches the `seen` bound N1, or contains N2 polynomial-yields-polynomial steps), returns the unique solution of the dependency equations, and gives every closed acyclic "
               "graph a value; the Python partial operations reachable from input (% and // by zero, struct.pack ranges after get_as_int, TABLE.index, chr, "
               "int(s, base), 2**b, dict lookups by pattern letter) cannot raise under the guards the code has now. The model is tied to the source by regenerated "
               "Gen files / pinned source shapes and by model-vs-implementation runs on random graphs. NOT proved: the parser and the statement compiler as a whole; "
@@ -99,16 +99,18 @@ def _pmap_padded(fn, jobs, pad):
 
 # ---------------------------------------------------------------------------------------------
 # proof part: WaitModel against the real deferred objects
-def seen_bound():
-    """the literal of deferred.wait as the translator pinned it (Gen/GenPartial.v)"""
+def seen_bounds():
+    """the two literals of deferred.wait as the translator pinned them (Gen/GenPartial.v)"""
     import re
     with open(os.path.join(C.COQ, "Gen", "GenPartial.v"), encoding="utf-8") as f:
-        m = re.search(r"Definition wait_seen_bound : nat := (\d+)%nat", f.read())
-    return int(m.group(1)) if m else 1000
+        text = f.read()
+    m1 = re.search(r"Definition wait_seen_bound : nat := (\d+)%nat", text)
+    m2 = re.search(r"Definition wait_poly_bound : nat := (\d+)%nat", text)
+    return (int(m1.group(1)) if m1 else 1000), (int(m2.group(1)) if m2 else 64)
 
 
 def gen_wait_cases(rng, n):
-    bound = seen_bound()
+    bound, bound2 = seen_bounds()
     cases = []
     fixed = [
         ([("fn", [], 0, 0)], [(0, False)]),                                   # a = a
@@ -126,6 +128,17 @@ def gen_wait_cases(rng, n):
     for ln in (bound - 2, bound - 1, bound, bound + 1):
         specs = [("constf", k + 1) for k in range(ln)] + [("const", 7)]
         cases.append((specs, [(0, False), (1, False), (ln - 3, False)]))
+    # the `polynomial_steps >= N2` bound: chains of N2-1 .. N2+2 polynomial objects each yielding the next (N2-2 .. N2+1 counted
+    # steps), the same with every other object a plain Deferred (no counted step), and a polynomial ring
+    for ln in (bound2 - 1, bound2, bound2 + 1, bound2 + 2):
+        specs = [("poly", [], 0, k + 1) for k in range(ln)] + [("const", 7)]
+        cases.append((specs, [(0, False), (2, False)]))
+    specs = [(("poly" if k % 2 else "fn"), [], 0, k + 1) for k in range(3 * bound2)] + [("const", 3)]
+    cases.append((specs, [(0, False)]))
+    specs = [("poly", [], 0, (k + 1) % 5) for k in range(5)]
+    cases.append((specs, [(0, False), (3, True)]))
+    specs = [("poly", [1], 1, None), ("poly", [], 0, 2), ("fn", [3], 2, None), ("poly", [], 0, 4), ("const", 5)]
+    cases.append((specs, [(0, False)]))
     while len(cases) < n:
         k = rng.choice([1, 2, 3, 4, 5, 6, 8, 12])
         acyclic = rng.random() < 0.5
@@ -142,7 +155,7 @@ def gen_wait_cases(rng, n):
             else:
                 deps = [rng.choice(pool) for _ in range(rng.choice([0, 1, 1, 2, 3]))] if pool else []
                 fwd = rng.choice(pool) if (pool and rng.random() < 0.25) else None
-                specs.append(("fn", deps, rng.randrange(-5, 6), fwd))
+                specs.append(("poly" if rng.random() < 0.3 else "fn", deps, rng.randrange(-5, 6), fwd))
         steps = [(rng.randrange(k), rng.random() < 0.4) for _ in range(rng.choice([1, 2, 3, 4]))]
         cases.append((specs, steps))
     return cases
@@ -154,9 +167,25 @@ def wait_case_job(specs, steps):
     m = impl.load()
     D = m["deferred"]
     impl.reset_global_state()
+    class FakePoly(D.LinearPolynomial):
+        """an object wait() takes for a LinearPolynomial, behaving like an unsettled Deferred with the given fn"""
+
+        def __init__(self, typ):
+            D.LinearPolynomial.__init__(self, typ)
+            self.fn, self.value, self.settled = None, None, False
+
+        def _wait(self):
+            if self.settled:
+                return self.value
+            self.value = self.fn()
+            self.settled = True
+            return self.value
+
     nodes = [None] * len(specs)
     for k, s in enumerate(specs):
-        if s[0] == "fn":
+        if s[0] == "poly":
+            nodes[k] = FakePoly(int)
+        elif s[0] == "fn":
             nodes[k] = D.Deferred(int, None)
         elif s[0] == "unsettled":
             nodes[k] = D.Promise(int, f"P{k}")
@@ -176,7 +205,7 @@ def wait_case_job(specs, steps):
                 nodes[k].settle(val)
             else:
                 nodes[k].value, nodes[k].settled = val, True
-        elif s[0] == "fn":
+        elif s[0] in ("fn", "poly"):
             def mk(deps, c, fwd):
                 def fn():
                     vals = [D.wait(nodes[d]) for d in deps]
@@ -210,7 +239,7 @@ def wait_case_job(specs, steps):
             finally:
                 signal.setitimer(signal.ITIMER_REAL, 0)
             flags_clear = not any(nd.is_awaiting for nd in nodes) and not D.Awaiting.awaiting_stack
-            sett = [bool(getattr(nd, "settled", False)) if specs[k][0] == "fn" else False for k, nd in enumerate(nodes)]
+            sett = [bool(getattr(nd, "settled", False)) if specs[k][0] in ("fn", "poly") else False for k, nd in enumerate(nodes)]
             obs.append((o, flags_clear, sett))
             if o[0] == "hang":
                 break
@@ -232,7 +261,7 @@ def wait_term(specs, steps, obs):
             return "SUnsettled"
         deps = "[" + "; ".join(f"{d}%nat" for d in s[1]) + "]"
         fwd = "None" if s[3] is None else f"(Some {s[3]}%nat)"
-        return f"SFn {deps} {C.zlit(s[2])} {fwd}"
+        return f"{'SPoly' if s[0] == 'poly' else 'SFn'} {deps} {C.zlit(s[2])} {fwd}"
 
     def ob(o):
         return {"val": lambda: f"ObsVal {C.zlit(o[1])}", "cycle": lambda: "ObsCycle", "notready": lambda: "ObsNotReady",
@@ -253,7 +282,7 @@ def wait_part(rep, rng, tier):
             raise RuntimeError("wait harness error: " + str(obs))
         rep.add_eval()
         rep.count("wait:" + obs[0][0][0])
-        if any(s[0] == "fn" for s in specs):
+        if any(s[0] in ("fn", "poly") for s in specs):
             rep.nontrivial(("wait", json.dumps(specs)))
         terms.append(wait_term(specs, steps[:len(obs)], obs))
     rep.traces_validated += len(terms)
@@ -362,7 +391,7 @@ def report_found(rep, found):
         r, v = min(lst, key=lambda rv: rv[0].get("size", 10 ** 9))
         items.append((sig, r, v, len(lst)))
     # 'spurious-cycle-report' rests on the input being acyclic by construction: shrinking the text would void that
-    mins = pmap("c08_min", [(r["case"], sig) if sig != "spurious-cycle-report" else (r["case"], "<keep>") for sig, r, v, n in items], chunksize=1) if items else []
+    mins = pmap("c08_min", [(r["case"], sig) if sig not in ("spurious-cycle-report", "unexpected-outcome") else (r["case"], "<keep>") for sig, r, v, n in items], chunksize=1) if items else []
     for (sig, r, v, n), mres in zip(items, mins):
         if isinstance(mres, dict):      # harness error inside the minimiser: keep the unminimised witness
             mcase, trials = r["case"], -1
@@ -427,6 +456,8 @@ def run_corpus(rep, watchdog):
             c["argv"] = d["argv"]
         if d.get("acyclic"):
             c["acyclic"] = True
+        if d.get("expect"):
+            c["expect"] = d["expect"]
         cases.append(c)
     res = pmap("c08_judge", [(c, watchdog) for c in cases], chunksize=1)
     out = []
